@@ -268,6 +268,8 @@ func handleLRem(params internal.HandlerFuncParams) ([]byte, error) {
 			if list[i] == value {
 				list = append(list[:i], list[i+1:]...)
 				absoluteCount += 1
+				// The next element has moved into position i: look at this position again.
+				i--
 			}
 		}
 	case count > 0:
@@ -279,6 +281,8 @@ func handleLRem(params internal.HandlerFuncParams) ([]byte, error) {
 			if list[i] == value {
 				list = append(list[:i], list[i+1:]...)
 				absoluteCount -= 1
+				// The next element has moved into position i: look at this position again.
+				i--
 			}
 		}
 	case count < 0:
